@@ -12,7 +12,9 @@
    "fresh = last + 1" (the batching / release logic of the real allocator is C07's model).
 
    The callback's decision is the function [plan_of] (parent / leaf check, IsIllegalConflict, RevTree.addRevision's
-   "already contains" and generation checks).  The stored document carries the tree, the sequence, the unused list
+   "already contains" and generation checks).  A pushed revision is written with options ([wopts]: NoConflicts,
+   ForceAllowConflictingTombstone, a conflict resolver); the rule by which the BLIP rev handler derives them from
+   the connection is C05/RevOptions.v.  The stored document carries the tree, the sequence, the unused list
    and the current revision (winningRevision of the new tree).  Ghost data, read by no step: what an attempt planned
    ([p_added], [p_att], [p_match]) and the list of commits with who made them and what they added -- the
    linearizability theorems (WriteLoopLinear.v) are stated over it.
@@ -101,13 +103,27 @@ Fixpoint gens_ok (parent : option revid) (news : list revid) : bool :=
   | x :: r => match parent with Some p => fst p <? fst x | None => true end && gens_ok (Some x) r
   end.
 
-Definition push_check (ac : bool) (t : tree) (hist : list revid) (deleted : bool) : pcheck :=
+(* Document.IsDeleted(): the stored current revision (the winner) is a tombstone *)
+Definition tree_tombstoned (t : tree) : bool :=
+  match winner t with Some w => r_deleted w | None => false end.
+
+(* [skip]: PutExistingRevWithConflictResolution's allowConflictingTombstone =
+   opts.ForceAllowConflictingTombstone && doc.IsDeleted() -- the conflict check is not run at all *)
+Definition push_check (ac : bool) (skip : bool) (t : tree) (hist : list revid) (deleted : bool) : pcheck :=
   let '(newrevs, parent) := split_known t hist [] in
   match newrevs with
   | [] => PCancel
-  | _ => if illegal_conflict ac t parent deleted hist then PConflict
+  | _ => if negb skip && illegal_conflict ac t parent deleted hist then PConflict
          else if gens_ok parent newrevs then PAdd (chain parent newrevs deleted) else PFailAdd
   end.
+
+(* ---------- write options (PutDocOptions) ---------- *)
+(* The options a pushed revision is written with.  The REST handlers and db.PutExistingRevWithBody use [no_opts];
+   the BLIP rev handler derives them from the connection and the message (C05/RevOptions.v). *)
+Record wopts := { o_force : bool;     (* ForceAllowConflictingTombstone *)
+                  o_resolver : bool;  (* ConflictResolver != nil *)
+                  o_noconf : bool }.  (* NoConflicts *)
+Definition no_opts : wopts := {| o_force := false; o_resolver := false; o_noconf := false |}.
 
 (* ---------- writers ---------- *)
 Record wop := { w_tag : N; w_parent : option revid; w_deleted : bool;
@@ -116,7 +132,8 @@ Record wop := { w_tag : N; w_parent : option revid; w_deleted : bool;
                 w_fail_after : list bool; (* per attempt: a step after assignSequence fails (storage error while persisting an
                                              out-of-line revision body, failing re-evaluation of the sync function...) -- an
                                              adversarial environment input, like a timer *)
-                w_fail_write : bool }.  (* the storage write itself returns an error (not a CAS mismatch) *)
+                w_fail_write : bool;    (* the storage write itself returns an error (not a CAS mismatch) *)
+                w_opt : wopts }.        (* the write options of a pushed revision (ignored by a REST Put) *)
 
 Inductive outcome := OAck (r : revid) (s : N) | OConflict | OForbidden | OFailed | OCancel | OUnsupported.
 
@@ -192,6 +209,18 @@ Definition is_tombstone (d : docstate) : bool :=
 Definition parent_eff (o : wop) (matchrev : option revid) : option revid :=
   match w_parent o with Some p => Some p | None => matchrev end.
 
+(* PutExistingRevWithConflictResolution's callback on tree [t] with the writer's options:
+     - IsIllegalConflict returns false at once when db.AllowConflicts() && !opts.NoConflicts;
+     - the conflict check is skipped when opts.ForceAllowConflictingTombstone && doc.IsDeleted();
+     - a detected conflict is a 409 unless a conflict resolver is given.  Conflict resolution itself (local wins /
+       remote wins / merge rewrite the incoming history) is NOT modelled: such a run is not comparable (None). *)
+Definition push_plan (allow_conflicts : bool) (o : wop) (t : tree) : option pcheck :=
+  match push_check (allow_conflicts && negb (o_noconf (w_opt o))) (o_force (w_opt o) && tree_tombstoned t)
+                   t (w_push o) (w_deleted o) with
+  | PConflict => if o_resolver (w_opt o) then None else Some PConflict
+  | p => Some p
+  end.
+
 (* what the update callback of writer [o] -- at its attempt number [attempt], remembering [matchrev] -- decides on
    the tree [t] (None: the harness supplied no digest for this (writer, parent), the case is not comparable) *)
 Definition plan_of (allow_conflicts : bool) (tab : digtab) (o : wop) (attempt : nat) (matchrev : option revid)
@@ -207,7 +236,7 @@ Definition plan_of (allow_conflicts : bool) (tab : digtab) (o : wop) (attempt : 
                             else Some (PAdd [{| r_id := (gen_of par + 1, dg); r_parent := par; r_deleted := w_deleted o |}])
                         end
           end
-  | hist => Some (push_check allow_conflicts t hist (w_deleted o))
+  | _ :: _ => push_plan allow_conflicts o t
   end.
 
 (* the writer after its acknowledged write, and the ghost record of that write *)
